@@ -139,7 +139,8 @@ class Sort(Part):
         if case["kind"] == "random":
             from artap.individual import Individual
             m = case["m"]
-            pools = [absx.monotone_map(rng, rng.randint(2, 5)) for _ in range(m)]
+            close = rng.random() < 0.2       # distinct values far closer than any plausible tolerance
+            pools = [absx.monotone_map(rng, rng.randint(2, 5), style="close" if close else None) for _ in range(m)]
             inds = []
             mstyle_r = rng.randrange(3)
             for k in range(case["n"]):
